@@ -614,4 +614,46 @@ def scripted_stream(ck, qr, numpy, m):
             ck.fail("script:units-context:bookkeeping", "bookkeeping not restored", inp)
             m.basis_stack[:] = [0]; m.basis_transformations[:] = [1]; m.basis_registered.clear()
             m._in_eigenbasis_of_context = False; m.current_basis_operator = None
+    # ---- objects HANDED OUT by a managed object inside a context (a time slice of an evolution, a Cartesian component of the dipole
+    # operator) and kept until the context is left: they are objects created inside, and come back in the original representation --------
+    from quantarhei import TimeAxis
+    from quantarhei.qm import ReducedDensityMatrixPropagator
+    from quantarhei.qm.hilbertspace.dmoment import TransitionDipoleMoment
+    for depth in (1, 2):
+        c1, c2 = Hamiltonian(data=symm() + numpy.diag([0.0, 1.0, 2.5])), SelfAdjointOperator(data=symm() + numpy.diag([0.0, 2.0, 3.0]))
+        rd0 = numpy.diag([0.2, 0.5, 0.3]).astype(complex); rd0[0, 1] = rd0[1, 0] = 0.1
+        ev = ReducedDensityMatrixPropagator(TimeAxis(0.0, 5, 1.0), Hamiltonian(data=symm() + numpy.diag([0.0, 1.5, 2.0]))).propagate(ReducedDensityMatrix(data=rd0.copy()))
+        ev0 = numpy.array(ev.data).copy()
+        dd = numpy.zeros((N, N, 3))
+        for k_ in range(3):
+            a_ = symm(); dd[:, :, k_] = a_
+        D = TransitionDipoleMoment(data=dd.copy())
+        inp = {"script": "objects handed out inside a context and kept", "nesting": depth}
+        ck.case(("script-handed-out", depth), nontrivial=True, kind="scripted", cls="handed-out", nesting=depth)
+        try:
+            with eigenbasis_of(c1):
+                if depth == 2:
+                    with eigenbasis_of(c2):
+                        snap = ev.at(2.0); comp = D.get_component(1)
+                        St = numpy.array(m.basis_transformations[1], dtype=float) @ numpy.array(m.basis_transformations[2], dtype=float)
+                        s_in, c_in = numpy.array(snap.data).copy(), numpy.array(comp.data).copy()
+                else:
+                    snap = ev.at(2.0); comp = D.get_component(1)
+                    St = numpy.array(m.basis_transformations[1], dtype=float)
+                    s_in, c_in = numpy.array(snap.data).copy(), numpy.array(comp.data).copy()
+            if numpy.abs(s_in - St.T @ ev0[2] @ St).max() > 1e-9 or numpy.abs(c_in - St.T @ dd[:, :, 1] @ St).max() > 1e-9:
+                ck.fail("script:handed-out:inside", "a time slice / dipole component handed out inside a context is not presented in the context's basis", inp)
+            for nm_, ob_, want_ in (("evolution.at(t)", snap, ev0[2]), ("TransitionDipoleMoment.get_component(k)", comp, dd[:, :, 1])):
+                dv_ = float(numpy.abs(numpy.array(ob_.data) - want_).max())
+                if dv_ > 1e-9:
+                    ck.fail("script:handed-out:restore", "%s obtained inside a context is not in the original representation after the context was left" % nm_,
+                            dict(inp, object=nm_), dv_)
+            if numpy.abs(numpy.array(ev.data) - ev0).max() > 1e-9 or numpy.abs(numpy.array(D.data) - dd).max() > 1e-9:
+                ck.fail("script:handed-out:parent", "the evolution / dipole operator itself is not restored after handing out a slice inside a context", inp)
+        except Exception as e:
+            ck.fail("raises:script:handed-out", "raised %r" % (e,), inp)
+        if len(m.basis_stack) != 1 or m.basis_registered or m.current_basis_operator is not None:
+            ck.fail("script:handed-out:bookkeeping", "bookkeeping not restored", inp)
+            m.basis_stack[:] = [0]; m.basis_transformations[:] = [1]; m.basis_registered.clear()
+            m._in_eigenbasis_of_context = False; m.current_basis_operator = None
 
